@@ -158,9 +158,12 @@ func (p Params[T]) Config(ctx context.Context, t *T, sources ...Source) (*Dials[
 		// the time.
 		cbch := make(chan userCallbackEvent, 64)
 		d.cbch = cbch
+		monDone := make(chan struct{})
+		d.monDone = monDone
 		cbmgr := callbackMgr[T]{
-			p:  &p,
-			ch: cbch,
+			p:       &p,
+			ch:      cbch,
+			monDone: monDone,
 		}
 		go cbmgr.runCBs(ctx)
 
@@ -385,6 +388,14 @@ func (u *userCallbackUnregisterToken[T]) unregister(ctx context.Context) bool {
 	select {
 	case <-ctx.Done():
 		return false
+	case <-u.d.monDone:
+		// shut down before the unregistration was processed
+		select {
+		case <-doneCh:
+			return true
+		default:
+			return false
+		}
 	case <-doneCh:
 		return true
 	}
@@ -521,7 +532,15 @@ func (d *Dials[T]) submitEventBlocking(ctx context.Context, ev userCallbackEvent
 		return false
 	}
 	select {
+	case <-d.monDone:
+		// the monitor (and with it the callback goroutine) has shut down
+		return false
+	default:
+	}
+	select {
 	case <-ctx.Done():
+		return false
+	case <-d.monDone:
 		return false
 	case d.cbch <- ev:
 		return true
@@ -632,7 +651,9 @@ func (d *Dials[T]) monitor(
 	watcherChan chan watchStatusUpdate,
 	monCtl <-chan verifyEnable[T],
 ) {
-	defer close(d.cbch)
+	// Signal shutdown to the callback goroutine and to API callers. The callback channel itself
+	// is never closed, since RegisterCallback/unregister may still try to send on it.
+	defer close(d.monDone)
 	skipVerify := d.params.DelayInitialVerification
 	for {
 		select {
